@@ -6,6 +6,8 @@ reference evaluator must interpret.
 
 from __future__ import annotations
 
+from . import alphabet as A
+
 from lsst.daf.relation import (
     Calculation,
     ColumnExpressionSequence,
@@ -43,6 +45,8 @@ def expr_from_lib(e):
             return ("lit", v)
         case ColumnReference(tag=t):
             return ("ref", t.qualified_name)
+        case ColumnFunction(name=A.EFN_NAME, args=(x,)):
+            return ("efn", expr_from_lib(x))
         case ColumnFunction(name="__neg__", args=(x,)):
             return ("neg", expr_from_lib(x))
         case ColumnFunction(name=n, args=(x, y)) if n in _ARITH:
